@@ -12,12 +12,13 @@
      needsquoteidx <hex>-> true|false | PANIC | OUTOFFUEL
      ismarkeridx <hex>  -> M <name> <after> | PANIC
      formatidx <comment> (<name> <data>)* -> <hex> | PANIC   (x/tools Format, statement level)
+     quoteidx <hex> / unquoteidx <hex>  -> ok <hex> | err | PANIC | OUTOFFUEL   (QuoteIndex.v)
    the model's own property statements, in executable form (TxtarHolds.v):
      holds <hex>        -> true|false   (c03_holds_on)
      holds14 <hex>      -> true|false   (c14_holds_on)
    rune level (Lib/Utf8.v) next to the byte level (Lib/Bytes.v):
-     u8 <hex>           -> D <r> <w>|L <r> <w>|TL <hex>|TR <hex>|T <hex>|TB <hex>|TF <hex>|V <bool>|VB <bool>
-                           (DecodeRune, DecodeLastRune, TrimLeftFunc, TrimRightFunc, TrimSpace by runes,
+     u8 <hex>           -> D <r> <w>|DT <r> <w>|L <r> <w>|TL <hex>|TR <hex>|T <hex>|TB <hex>|TF <hex>|V <bool>|VB <bool>
+                           (DecodeRune, DecodeRune with the library's tables (Utf8Go.v), DecodeLastRune, TrimLeftFunc, TrimRightFunc, TrimSpace by runes,
                             trim_space of Bytes.v, TrimFunc as the Go code computes it (Utf8Trim.v), runes_ok, utf8_valid of Bytes.v)
      u8sweep <hex> <n>  -> md5 of the u8 lines of all strings <hex> ++ (n arbitrary bytes), n = 1|2,
                            in increasing order, each line followed by \n
@@ -47,7 +48,9 @@ let fast_hex (l : byte list) : string =
 let u8_line (x : byte list) =
   let hex_of_bytes = fast_hex in
   String.concat "|" [
-    "D " ^ show_dec (decode_rune x); "L " ^ show_dec (decode_last_rune x);
+    "D " ^ show_dec (decode_rune x);
+    "DT " ^ (match decode_rune_tab x with DOk (r, w) -> show_dec (Some (r, w)) | DEmpty -> "none" | DPanic -> "PANIC");
+    "L " ^ show_dec (decode_last_rune x);
     "TL " ^ hex_of_bytes (trim_left_runes x); "TR " ^ hex_of_bytes (trim_right_runes x);
     "T " ^ hex_of_bytes (trim_space_runes x); "TB " ^ hex_of_bytes (trim_space x);
     "TF " ^ (match trim_func x with Some t -> hex_of_bytes t | None -> "FAIL");
@@ -71,6 +74,8 @@ let () = serve (function
   | ["encode"; r] -> let r = n_of_int (int_of_string r) in
       "S " ^ string_of_bool (is_scalar r) ^ " " ^ hex_of_bytes (encode_rune r)
   | "formatidx" :: r -> show_res hex_of_bytes (format_idx (archive_of r))
+  | ["quoteidx"; x] -> show_res show_opt (quote_idx (bytes_of_hex x))
+  | ["unquoteidx"; x] -> show_res show_opt (unquote_idx (bytes_of_hex x))
   | ["parseidx"; x] -> show_res show_archive (parse_idx (bytes_of_hex x))
   | ["needsquoteidx"; x] -> show_res string_of_bool (needs_quote_idx (bytes_of_hex x))
   | ["ismarkeridx"; x] -> show_mres (is_marker_idx (bytes_of_hex x))
